@@ -5126,6 +5126,11 @@ EmitOp_Rel:
         label_id = rm_rel->as<Label>().id();
       }
       else {
+        // Only a label based memory operand designates a label - `base_id()` of an absolute address holds its high bits.
+        if (ASMJIT_UNLIKELY(!rm_rel->as<Mem>().has_base_label())) {
+          goto InvalidAddress;
+        }
+
         label_id = rm_rel->as<Mem>().base_id();
         label_offset = rm_rel->as<Mem>().offset();
       }
